@@ -9,6 +9,7 @@ package main
 //	c20.method (fam arg bytes) -> value | 'err    x.UnmarshalJSON(bytes)
 
 import (
+	"bytes"
 	"encoding/hex"
 	"encoding/json"
 	"fmt"
@@ -32,6 +33,8 @@ type ops20 struct {
 	mUnmarshal func(doc []byte, direct bool) (sx.V, error)
 	// reuse: Unmarshal into a receiver that already holds the value prev
 	reuse func(prev sx.V, doc []byte, direct bool) (sx.V, error)
+	// after: decode doc1, then decode doc2 into another receiver, then look at the first value
+	after func(doc1, doc2 []byte) (sx.V, error)
 }
 
 type jsonPtr20[T any] interface {
@@ -41,19 +44,45 @@ type jsonPtr20[T any] interface {
 
 func mkOps20[T any, P jsonPtr20[T]](from func(sx.V) T, to func(*T) sx.V) ops20 {
 	return ops20{
-		marshal: func(v sx.V) ([]byte, error) { return json.Marshal(from(v)) },
+		marshal: func(v sx.V) ([]byte, error) {
+			// through the value and through a pointer to it: the same text
+			x := from(v)
+			b1, err1 := json.Marshal(x)
+			b2, err2 := json.Marshal(&x)
+			if (err1 == nil) != (err2 == nil) || !bytes.Equal(b1, b2) {
+				return nil, fmt.Errorf("json.Marshal(v) and json.Marshal(&v) differ: %s / %s", b1, b2)
+			}
+			return b1, err1
+		},
 		unmarshal: func(doc []byte, direct bool) (sx.V, error) {
 			var x T
 			var err error
+			d := append([]byte{}, doc...)
 			if direct {
-				err = P(&x).UnmarshalJSON(doc)
+				err = P(&x).UnmarshalJSON(d)
 			} else {
-				err = json.Unmarshal(doc, &x)
+				err = json.Unmarshal(d, &x)
 			}
 			if err != nil {
 				return sx.V{}, err
 			}
+			// the decoded value must not alias the caller's buffer
+			for i := range d {
+				d[i] = 'X'
+			}
 			return to(&x), nil
+		},
+		after: func(doc1, doc2 []byte) (sx.V, error) {
+			// a result kept by the caller and inspected after a later call
+			var x1, x2 T
+			if err := json.Unmarshal(doc1, &x1); err != nil {
+				return sx.V{}, err
+			}
+			if err := json.Unmarshal(doc2, &x2); err != nil {
+				return sx.V{}, err
+			}
+			_, _ = json.Marshal(x2)
+			return to(&x1), nil
 		},
 		reuse: func(prev sx.V, doc []byte, direct bool) (sx.V, error) {
 			x := from(prev)
@@ -949,6 +978,7 @@ func genC20(c *Ctx) {
 	}
 	genC20CellSizes(c, nMut)
 	genC20BocDocs(c)
+	genC20BocCuts(c)
 	case20{fam: "cell", arg: sx.Nat(0), class: "cell"}.hand(c, append([]string{"\"b5ee9c72\"", "\"b5ee9c7201\"", "\"b5ee9c72010101010002000000\"", "\"B5EE9C72010101010002000000\"", "\"b5ee9c7201010101000200000\"", "\"b5ee9c720101010100020000000\"", "\"b5ee9c72010102010002000000\"", "b5ee9c72010101010002000000"}, commonDocs20...)...)
 
 	// ---- Maybe[T] over several inner families
